@@ -6,6 +6,9 @@ fn usage() -> ! {
     std::process::exit(2)
 }
 
+#[global_allocator]
+static GLOBAL: qv::props::c14::alloc_count::Counting = qv::props::c14::alloc_count::Counting;
+
 fn main() {
     qv::exec::install_panic_hook();
     let args: Vec<String> = std::env::args().collect();
@@ -55,6 +58,9 @@ fn main() {
             let v: serde_json::Value = serde_json::from_str(&std::fs::read_to_string(path).unwrap()).unwrap();
             let c: qv::crash::CrashCase = serde_json::from_value(v["replay"]["case"].clone()).unwrap();
             println!("{}", qv::crash::crashdump(&c, ev));
+        }
+        Some("worker") => {
+            qv::props::c14::worker_main();
         }
         Some("list") => {
             for p in &props {
